@@ -1316,4 +1316,89 @@ func c09Concurrent(t *testing.T, out *vfOut) {
 		}
 		_ = m.s.Close()
 	}
+	c09ConcurrentReset(t, out)
+}
+
+// c09ConcurrentReset: updater goroutines and a flusher turning the hour run
+// while POST /control/stats_reset is issued; afterwards the total lies between
+// the updates that started after the reset returned and those that finished
+// after it began (bounds that do not depend on timing), and nothing of an
+// earlier hour is stored.
+func c09ConcurrentReset(t *testing.T, out *vfOut) {
+	const b = 492000
+	for round := 0; round < 6; round++ {
+		m := c09NewSim(t, t.TempDir(), b, 48*c09MsHour, true)
+		const writers, perWriter = 6, 500
+		var wg sync.WaitGroup
+		var started, finished atomic.Uint64
+		for w := 0; w < writers; w++ {
+			wg.Add(1)
+			go func(w int) {
+				defer wg.Done()
+				for i := 0; i < perWriter; i++ {
+					started.Add(1)
+					m.s.Update(c09Entry(c09Upd(1+(w+i)%5, 1+i%4, 1+w%3, 4)))
+					finished.Add(1)
+				}
+			}(w)
+		}
+		stop := make(chan struct{})
+		var fg sync.WaitGroup
+		fg.Add(1)
+		go func() {
+			// The periodic flusher; the clock follows the progress of the
+			// updaters: 40 hours in all, inside the 48 h window.
+			defer fg.Done()
+			for {
+				select {
+				case <-stop:
+					return
+				default:
+					m.hour.Store(b + uint32(started.Load()/75))
+					m.flush()
+				}
+			}
+		}()
+		for started.Load() < uint64(100*(round+1)) {
+			// Let some updates and roll-overs happen first (no clock involved).
+			m.flush()
+		}
+		before := finished.Load()
+		w := m.call("POST", "/control/stats_reset", "")
+		after := started.Load()
+		wg.Wait()
+		close(stop)
+		fg.Wait()
+		total := started.Load()
+		var got uint64
+		func() {
+			m.s.confMu.RLock()
+			defer m.s.confMu.RUnlock()
+			units, _ := m.s.loadUnits(48)
+			for _, u := range units {
+				got += u.NTotal
+			}
+		}()
+		ok, msg := true, ""
+		switch {
+		case w.Code != http.StatusOK:
+			ok, msg = false, fmt.Sprintf("stats_reset: %d", w.Code)
+		case got > total-before:
+			ok, msg = false, fmt.Sprintf("after a reset racing %d updaters and the flusher: %d reported, only %d updates finished after the reset began", writers, got, total-before)
+		case got < total-after:
+			ok, msg = false, fmt.Sprintf("after a reset racing %d updaters and the flusher: %d reported, %d updates started after the reset returned", writers, got, total-after)
+		}
+		m.errMu.Lock()
+		if ok && m.errBits != 0 {
+			ok, msg = false, fmt.Sprintf("error classes %d: %s", m.errBits, strings.Join(m.errMsgs, "; "))
+		}
+		m.errMu.Unlock()
+		out.Class("concurrent-reset-with-updates-and-flushes")
+		if !ok {
+			out.Emit(vfCase{Coq: fmt.Sprintf("(CHist %d %d true (@nil (op * obs)))%%Z", b+round, 48*c09MsHour),
+				MonitorOK: false, MonitorMsg: msg, FindingKey: "c09-concurrent-reset",
+				Desc: map[string]any{"name": "concurrent reset", "round": round}})
+		}
+		_ = m.s.Close()
+	}
 }
